@@ -199,7 +199,7 @@ def Mon.connected (m : Mon) (c : Nat) (ver : Version) (p : Packet) (res : Option
     let bytes := (Stack.clientEncode ver p).getD []
     let idOk := match Stack.str? co.clientId with | some s => Router.validClientId s | none => false
     let f1 : Fail :=
-      if success && !(AdmissionSpec.mayProceed cfg bytes co && idOk) then
+      if success && !(AdmissionSpec.mayProceed cfg bytes co && AdmissionSpec.wireVersionOk cfg bytes && idOk) then
         some ("c19-admitted-invalid", s!"stream {c}: CONNACK Success for level={co.level} keepalive={co.keepAlive} id={hex co.clientId} clean={co.clean} credentials={AdmissionSpec.credentialsAccepted m.auth co.login co.clientId}")
       else none
     -- a connection slot must not be lost: a CONNECT that satisfies every condition is refused
@@ -260,8 +260,12 @@ def Mon.sent (m : Mon) (c : Nat) (p : Packet) : Mon :=
     match p with
     | .subscribe _ _ filters =>
       if !x.admitted then m else
-      m.setConn c { x with subs := x.subs ++ filters.filterMap (fun f => Stack.str? f.path) }
+      let fresh := (filters.filterMap (fun f => Stack.str? f.path)).filter (fun f => !x.subs.contains f)
+      m.setConn c { x with subs := x.subs ++ fresh.eraseDups }
     | .disconnect _ _ => m.setConn c { x with sentDisconnect := true }
+    | .unsubscribe _ _ filters =>
+      let gone := filters.filterMap Stack.str?
+      m.setConn c { x with subs := x.subs.filter (fun f => !gone.contains f) }
     | .publish _ _ _ topic _ payload props =>
       if !x.admitted || !x.alive then m else
       -- a client must not send subscription identifiers; the alias must be in range / known
